@@ -706,3 +706,94 @@ def c17(tier, seed):
         out.append(scenario("c17-%d-%s-%d" % (i, pn, nfiles), props[pn](), fl, runs=runs, name=name,
                             tag={"prop": pn, "kinds": [f["path"].split("-")[-1].replace(".fail", "") for f in files]}))
     return out
+
+
+# ---------------------------------------------------------------------------
+# C04: draws are a pure function of the bitstream (recorded, pruned, replayed)
+
+def c04_bodies():
+    return {
+        "distinct": [draw(g("SliceOfDistinct", elem=IntRange(0, 2)), "s"), draw(g("Int"), "y"), draw(g("Int"), "z")],
+        "distinctN": [draw(g("SliceOfNDistinct", elem=IntRange(0, 3), minLen=1, maxLen=6), "s"), draw(g("Uint16"), "y")],
+        "map": [draw(g("MapOf", key=g("Int8Range", min="0", max="2"), val=g("Int16")), "m"), draw(g("Uint8"), "u")],
+        "mapvalues": [draw(g("MapOfNValues", val=IntRange(0, 3), minLen=0, maxLen=5), "m"), draw(g("Bool"), "b")],
+        "string": [draw(g("StringN", minLen=-1, maxLen=-1, maxBytes=4), "s"), draw(g("Int"), "y")],
+        "stringof": [draw(g("StringOfN", elem=g("RuneFrom", expr="a\u00e9\u4e16\U0001f600"), minLen=0, maxLen=6, maxBytes=7), "s"), draw(g("Int8"), "y")],
+        "filter": [draw(g("Filter", elem=IntRange(0, 1000), pred="mod3"), "x"), draw(g("SliceOf", elem=g("Bool")), "b")],
+        "sampled": [draw(g("SampledFrom", items=["1", "2", "3"]), "c"), draw(g("Int32"), "v"), draw(g("SampledFrom", items=["7", "8", "9", "10", "11"]), "d")],
+        "custom": [draw(g("Custom", elem=g("Int16"), body=[draw(IntRange(0, 5), "a", "a"), iff("a", "le", 2, [op("skip")])]), "c"), draw(g("Uint8"), "t")],
+        "makemap": [draw(g("Make", type="map"), "mm"), draw(g("Int8"), "t")],
+        "makestruct": [draw(g("Make", type="struct"), "ms"), draw(g("Make", type="ptr"), "mp")],
+        "regexp": [draw(g("StringMatching", expr="[a-c]{2,4}x?|\\d+"), "r"), draw(g("SliceOfBytesMatching", expr="(?i)ab*c"), "rb")],
+        "floats": [draw(g("Float64"), "f"), draw(g("Float32Range", min="-1", max="1"), "g"), draw(g("Float64Range", min="0", max="inf"), "h")],
+        "perm": [draw(g("Permutation", items=["1", "2", "3", "4"]), "p"), draw(g("OneOf", gens=[g("Int8"), IntRange(5, 6)]), "o"), draw(g("Ptr", elem=g("Int"), allowNil=True), "q")],
+        "sm": [op("setvar", var="n", val="0"),
+               op("repeat", actions={"inc": [draw(g("Bool"), "b"), op("incvar", var="n")],
+                                     "skipafter": [draw(IntRange(0, 9), "r"), op("skip")],
+                                     "skipbefore": [iff("n", "ge", 2, [op("skip")]), draw(g("Byte"), "q")]}),
+               draw(g("Int"), "after")],
+    }
+
+
+def c04(tier, seed):
+    rng = random.Random(seed)
+    out = []
+    bodies = c04_bodies()
+    nseeds = 12 if tier == "quick" else 300
+    rel = [{"a": "repro@1", "kind": "replay", "b": "gen@1"}, {"a": "final@1", "kind": "pruned", "b": "repro@1"},
+           {"a": "fuzz1", "kind": "replay", "b": "repro@1"}, {"a": "fuzz2", "kind": "pruned", "b": "repro@1"},
+           {"a": "gen@3", "kind": "replay", "b": "gen@1"}]
+    for bn in sorted(bodies):
+        for sd in seeds(rng, nseeds):
+            body = bodies[bn] + [op("fatalf", site=1)]          # every test case fails after its draws, so every seed gets recorded
+            fl = {"checks": 1, "seed": sd, "nofailfile": "true", "shrinktime": "0s", "steps": rng.choice([3, 30])}
+            runs = [{}, {"entry": "fuzz", "fuzzFrom": ["recorded", "pruned"]},
+                    {"warm": rng.sample(["strings", "labels", "check", "failcheck"], 2)}]   # same seed again after unrelated activity
+            out.append(scenario("c04-%s-%d-%d" % (bn, sd, len(out)), {"body": body}, fl, runs=runs, tag={"body": bn, "rel": rel}))
+    return out
+
+
+# ---------------------------------------------------------------------------
+# C13: MakeFuzz is total and faithful
+
+def c13(tier, seed):
+    rng = random.Random(seed)
+    out = []
+    props = {
+        "threshold": lambda: t_threshold("Int64", 1000), "nonfatal": t_nonfatal, "distinct": t_distinct, "string": t_string, "sm": t_sm,
+        "filter": t_filter, "custom": t_custom, "skipper": lambda: [draw(g("Uint8"), "x", "x"), iff("x", "mod2", 0, [op("skip")]), draw(g("Bool"), "b")],
+        "errorf_then_more": lambda: [draw(g("Byte"), "x", "x"), iff("x", "ge", 3, [op("errorf", text="soft")]), draw(g("SliceOf", elem=g("Uint64")), "s")],
+        "wide": lambda: [draw(g("Uint64"), "a"), draw(g("Uint64"), "b"), draw(g("Uint64"), "c")],
+        "nodraw": lambda: [op("log", text="no draws")], "panic": lambda: t_threshold("Int8", 5, "panic"),
+    }
+    pats = ["00", "ff", "01", "80", "7f"]
+    nrep = 1 if tier == "quick" else 10
+    for rep in range(nrep):
+        for pn in sorted(props):
+            inputs, rel = [], []
+
+            def add(hx, relto=None, kind=None):
+                inputs.append(hx)
+                if relto:
+                    rel.append({"a": "fuzz%d" % len(inputs), "kind": kind, "b": "fuzz%d" % relto})
+                return len(inputs)
+            for n in (range(0, 25) if rep == 0 else rng.sample(range(0, 200), 25)):
+                p = rng.choice(pats)
+                add(p * n)
+            for _ in range(12 if tier == "quick" else 40):
+                n = rng.choice([1, 7, 8, 9, 15, 16, 17, 23, 24, 25, 40, 63, 64, 65, 200, 1000])
+                hx = bytes(rng.randrange(256) for _ in range(n)).hex()
+                j = add(hx)
+                add(hx, j, "same")
+                add(hx + bytes(rng.randrange(256) for _ in range(rng.choice([1, 3, 8, 11]))).hex(), j, "extends")
+                if n % 8:
+                    add(hx + "00" * (8 - n % 8), j, "same")      # explicit zero padding of the short tail is the same input
+            # tail bytes after a word of all ones: a stale (not re-zeroed) buffer would show
+            j = add("ff" * 8 + "010203")
+            add("ff" * 8 + "0102030000000000", j, "same")
+            jf = rng.randrange(1, len(inputs) + 1)
+            rel.append({"a": "ff1@2", "kind": "faithful", "b": "fuzz%d" % jf})
+            runs = [{"fuzz": inputs}, {"entry": "check", "failfileFuzz": jf, "flags": {"checks": "3", "seed": "5", "nofailfile": "true", "shrinktime": "0s"}}]
+            out.append(scenario("c13-%s-%d" % (pn, rep), {"body": props[pn]()}, {"steps": rng.choice([2, 30])}, runs=runs, entry="fuzz",
+                                tag={"prop": pn, "rel": rel, "inputs": len(inputs)}))
+    return out
